@@ -373,3 +373,24 @@ func FlowsToReturn(v ssa.Value) *ssa.Return {
 	}
 	return walk(v, 0)
 }
+
+// ReturnedValue returns the value a Return yields at index idx, looking through go/ssa's result spilling: in a function
+// with defer the results are stored into a cell just before `rundefers` and reloaded for the return instruction.
+func ReturnedValue(r *ssa.Return, idx int) ssa.Value {
+	v := r.Results[idx]
+	ld, ok := v.(*ssa.UnOp)
+	if !ok || ld.Op != token.MUL || !IsLocalCell(ld.X) {
+		return v
+	}
+	b := r.Block()
+	var last ssa.Value
+	for _, in := range b.Instrs {
+		if st, ok := in.(*ssa.Store); ok && RootAlloc(st.Addr) == RootAlloc(ld.X) {
+			last = st.Val
+		}
+	}
+	if last != nil {
+		return last
+	}
+	return v
+}
